@@ -94,6 +94,15 @@ TopN ==
       before(b, a) == \/ RCmpS(MomOf(swin[b]), MomOf(swin[a])) > 0
                       \/ (RCmpS(MomOf(swin[b]), MomOf(swin[a])) = 0 /\ idx(b) < idx(a))
   IN  { a \in T : Cardinality({ b \in T : before(b, a) }) < Cfg.topn }
+\* The code computes momentum in floating point (a cumulative product of daily returns); for DIFFERENT windows whose exact
+\* momentum is equal the rounding errors may differ (12.5, 10, 16, 12.5 gives 2.2e-16; 16, 12.5, 12.5, 16 gives 0.0), so which
+\* of them is selected is not determined by anything the properties state.  Equal windows give equal floats, and distinct
+\* exact values on the price grid differ by far more than any rounding error.  A rebalance at which the selection boundary
+\* runs through such a tie is flagged; the harness does not judge the run (see DESIGN section 3).
+TieAmbiguous ==
+  /\ HasSignals /\ warm >= Cfg.lookback
+  /\ LET T == { strk[i] : i \in 1..Len(strk) }
+     IN  \E a \in TopN, b \in T \ TopN : RCmpS(MomOf(swin[a]), MomOf(swin[b])) = 0 /\ swin[a] # swin[b]
 AlphaAt(t) == IF Cfg.alpha = "fixed" THEN Cfg.weights                              \* the same dictionary at every rebalance
               ELSE IF Cfg.alpha = "single" THEN [a \in UniverseAt(t) |-> 1]         \* universe-driven single signal
               ELSE [a \in UniverseAt(t) \cup (IF warm >= Cfg.lookback THEN TopN ELSE {}) |->
@@ -184,7 +193,7 @@ SRebalance ==
   /\ LET c  == PcmCase(Ev.t)
          r  == PC!Call(c)
          w  == [a \in { AssetSeq[n] : n \in DOMAIN r.alloc } |-> r.alloc[AssetNo(a)]]
-     IN  /\ allocs' = Append(allocs, [t |-> Ev.t, w |-> w])             \* recorded before sizing
+     IN  /\ allocs' = Append(allocs, [t |-> Ev.t, w |-> w, amb |-> TieAmbiguous])   \* recorded before sizing
          /\ IF "err" \in DOMAIN r
             THEN pc' = "failed" /\ failure' = [t |-> Ev.t, cls |-> r.err] /\ pend' = pend
             ELSE LET tq == [n \in PC!FullAssets(c) |-> CHOOSE x \in r.target[n] : TRUE]
